@@ -27,3 +27,9 @@ chk('C11', 'exploration',
     'seven delimiter settings, three eol conventions, both ISA versions); its text must equal a model byte for byte and the output is re-read by the real reader and by the independent recount.',
     'Trusted: the event model in checks/c11.py and vlib/ref_envelope.recount; the domain restriction to well-nested histories is the property\'s own.',
     'model-based monitor over generated write histories + independent re-read', 'DESIGN.md 5 C11')
+chk('C01', 'exploration',
+    'The real reader tokenises re-encoded fixture documents and generated segment soups (terminators steered onto the 8 KiB buffer boundaries, segments longer than one and two buffers, '
+    'empty / blank-only segments, every line-break style) through seven kinds of source (whole reads, nine fixed chunk sizes, random short reads, open file, path); every read() is logged. '
+    'An independent tokenizer is the oracle for content, format()+re-read for the round trip, and stream equality across sources for chunking independence.',
+    'Trusted: vlib/ref_token.py; short reads are taken to be legal for a text stream (io.TextIOBase.read contract).',
+    'reference-model monitor + metamorphic comparison across logged read chunkings', 'DESIGN.md 5 C01')
